@@ -72,8 +72,12 @@ def frag_types(repo):
     if not ok:
         raise Unrecognised("is_earn_type body")
     earn = sorted(set(earn), key=TTYPES.index)
+    names = "Definition ttype_value (t : ttype) : str :=\n  match t with\n"
+    for m, v in members:
+        names += f"  | {m} => {coq_list([str(ord(ch)) for ch in v])}\n"
+    names += "  end.\n"
     return (f"Definition earn_types : list ttype := {coq_list(earn)}.\n"
-            "Definition is_earn_type (t : ttype) : bool := ttype_in t earn_types.\n")
+            "Definition is_earn_type (t : ttype) : bool := ttype_in t earn_types.\n" + names)
 
 
 def _allowed_from_init(cls, cname):
